@@ -285,6 +285,40 @@ func runC20(c *Ctx) {
 		}
 		c.Check(okProto, "C20.3", "vanguardgrpc.NewTranscoder", "target-grpc", wrap.Pos(),
 			"the wrapped services target the gRPC protocol", "the wrapped services are not configured with the gRPC target protocol")
+		// the wrapper's built-in defaults come FIRST, the caller's options after them, so that the
+		// caller's defaults win exactly as they would for services registered by name
+		var optsParam *ssa.Parameter
+		for _, prm := range wrap.Params {
+			if sl, ok := prm.Type().Underlying().(*types.Slice); ok {
+				if nm, ok := sl.Elem().(*types.Named); ok && N(nm.Obj()) == "TranscoderOption" {
+					optsParam = prm
+				}
+			}
+		}
+		okOrder, nCalls := false, 0
+		for _, call := range Calls(wrap) {
+			cv, ok := call.(*ssa.Call)
+			if !ok || cv.Call.StaticCallee() == nil || N(cv.Call.StaticCallee()) != "NewTranscoder" || len(cv.Call.Args) < 2 {
+				continue
+			}
+			nCalls++
+			// the options value: append(<built-ins...>, opts...)
+			if ap, ok := strip(cv.Call.Args[1]).(*ssa.Call); ok {
+				if b, isB := ap.Call.Value.(*ssa.Builtin); isB && b.Name() == "append" && len(ap.Call.Args) == 2 {
+					if optsParam != nil && strip(ap.Call.Args[1]) == ssa.Value(optsParam) {
+						// and what precedes is not the caller's slice itself
+						if strip(ap.Call.Args[0]) != ssa.Value(optsParam) {
+							okOrder = true
+						}
+					}
+				}
+			}
+		}
+		if optsParam != nil && nCalls > 0 {
+			c.Check(okOrder, "C20.3", "vanguardgrpc.NewTranscoder", "caller-options-last", wrap.Pos(),
+				"the caller's options are appended after the wrapper's built-in defaults (later defaults win)",
+				"the caller's options do not come last in what is handed to vanguard.NewTranscoder: the wrapper's built-in codec/protocol defaults override the caller's, unlike the same services registered by name")
+		}
 	}
 
 	// ---------------------------------------------------------------- C20.4
